@@ -279,3 +279,39 @@ pub fn named_orders(len: usize) -> Vec<(String, Vec<usize>)> {
     out.dedup_by(|a, b| a.1 == b.1);
     out
 }
+
+// ------------------------------------------------------------------------------------------------
+// files inside `immutable/` that carry an immutable extension but not the name of an immutable file
+
+/// other spellings of the number `x` that `str::parse::<u64>` accepts: fewer digits, more leading
+/// zeros than five digits need, a leading plus sign. The canonical `{x:05}` is never returned.
+pub fn spellings(x: u64) -> Vec<String> {
+    let canonical = format!("{x:05}");
+    let mut v = vec![format!("{x}"), format!("{x:03}"), format!("{x:06}"), format!("{x:09}"), format!("+{x}"), format!("+{x:05}")];
+    v.retain(|s| *s != canonical);
+    let mut out: Vec<String> = vec![];
+    for s in v {
+        if !out.contains(&s) {
+            out.push(s);
+        }
+    }
+    out
+}
+
+/// file names with an immutable extension whose stem is not a number (of an `u64`)
+pub fn foreign_names(first: u64, last: u64) -> Vec<String> {
+    vec![
+        format!("{first:05} (copy).chunk"),
+        format!("{last:05}.bak.chunk"),
+        "notes.primary".into(),
+        "abc.secondary".into(),
+        ".tmp.chunk".into(),
+        "99999999999999999999999.chunk".into(),
+        "18446744073709551616.primary".into(),
+        format!("-{first}.chunk"),
+        format!("{last:05}x.secondary"),
+        format!(" {first:05}.chunk"),
+        format!("0x{last:04}.primary"),
+        format!("{first:05}_{last:05}.secondary"),
+    ]
+}
